@@ -2,6 +2,6 @@
 from composite import install
 TIE = "corr:pe"
 TIE_THEOREM = "Relic.Props.C03 (models Relic.Model.PE vs lib/authenticode)"
-UNPROVED = []
+UNPROVED = ['zip_rewrite_preserves_members_full (view of the output through Relic.Spec.Zip = added ++ kept): statement only; proved at layout level (zip_rewrite_preserves_members)']
 IMPL_PARALLEL = 16
-install(globals(), "C03", ["pe", "e2e", "cab", "ps", "jar"])
+install(globals(), "C03", ["pe", "e2e", "cab", "ps", "jar", "ziprw"])
